@@ -30,6 +30,8 @@ def _is_last_in_loop(stmt):
 
 def check(run):
     prog = run.prog
+    from . import common as _common
+    _common.fresh_hits(run, "C14")
     A = sites.analysis(prog)
     xm = prog.mod("decoders.xml")
     # ------------------------------------------------------------------ XML
